@@ -11,6 +11,7 @@ From CG Require Import Spec.Choice.
 From CGgen Require Import Consts.
 From CG Require Import Model.Minimize.
 From CG Require Import Spec.DfaEquiv.
+From CG Require Import Spec.MinimizeSpec.
 (* add new Require lines above this line *)
 Require Import ExtrOcamlBasic ExtrOcamlString.
 Extraction Language OCaml.
@@ -32,5 +33,6 @@ Separate Extraction
   DfaEquiv.trim_dec
   DfaEquiv.distinct_dec
   DfaEquiv.states
+  MinimizeSpec.wfb
   (* add new roots above this line *)
   Prelude.pow2.
